@@ -9,9 +9,9 @@ Norm(row) == IF row.k = "RDH" THEN row
              ELSE [k |-> row.k, off |-> row.off, w |-> row.w, a |-> row.a]
 Next == /\ l <= Len(Rec) /\ Rec[l].e = "Pkt"
         /\ LET ev == Rec[l]
-               exp == PacketRows(ev.off, ev.rdh, ev.payload, ev.withData)
+               exp == IF ev.selected THEN PacketRows(ev.off, ev.rdh, ev.payload, ev.withData) ELSE << >>      \* a packet the filter does not select has no rows
                expn == [i \in 1..Len(exp) |-> Norm(exp[i])]
-           IN IF expn = ev.rows THEN TRUE ELSE PrintT("REJECT " \o ToJson([l |-> l, tag |-> "rows", expected |-> expn, observed |-> ev.rows])) /\ FALSE
+           IN IF expn = ev.rows THEN TRUE ELSE PrintT("REJECT " \o ToJson([l |-> l, tag |-> "rows", expected |-> expn, observed |-> ev.rows]))
         /\ l' = l + 1
 Spec == Init /\ [][Next]_l
 Accepted == IF TLCGet("stats").diameter - 1 = Len(Rec) THEN TRUE
